@@ -682,4 +682,67 @@ Section Tunnel.
     - rewrite (Hread _ rest HokL). unfold Y. rewrite (FieldOpsProofs.ref_get_same (cfS tscf) HSin _ T W HokL) by (rewrite HShl, HbW; lia).
       apply N.mod_small. destruct tscf; cbn; lia.
   Qed.
+
+  Lemma total_ge fd : forall frs, Forall (frame_ok fd) frs -> 16 * N.of_nat (List.length frs) <= total_len frs.
+  Proof.
+    induction 1 as [|fr frs Hok _ IH]; [cbn; lia|]. cbn [List.length total_len]. unfold msg_len at 1. lia.
+  Qed.
+
+  (* talker then listener *)
+  Theorem tunnel (udp tscf fd:bool) seq udpseq frs pdu stale :
+    normal pdu -> blen pdu = 1500 -> List.length stale = 1500%nat ->
+    Forall (frame_ok fd) (map fst frs) -> Forall sff_ok (map fst frs) ->
+    (if udp then 4 else 0) + cf_hl tscf + total_len (map fst frs) <= 1500 ->
+    exists sent pdu', talker_packet LD ST udp tscf fd seq udpseq frs pdu = Ok (sent, pdu') /\
+      N.of_nat (List.length sent) = (if udp then 4 else 0) + cf_hl tscf + total_len (map fst frs) /\
+      (forall rest, ref_get (cfS tscf) (cf_len_name tscf) (sub (sent ++ rest) (if udp then 4 else 0)) = total_len (map fst frs)) /\
+      can_listener LD ST E udp fd sent stale = (XHandled, frames_out fd frame0 (map fst frs)).
+  Proof.
+    intros Hn Hlen Hst Hok Hsff Hfit.
+    destruct (talker_structure udp tscf fd seq udpseq frs pdu Hn Hlen Hok Hfit) as [U [Hd [Ms [pdu' [Hrun [HU [HHd [HMs [Hsub Hdl]]]]]]]]].
+    pose proof (concat_len fd _ _ HMs Hok) as HcL.
+    set (T := total_len (map fst frs)) in *. set (hl := cf_hl tscf) in *. set (proc0 := if udp then 4 else 0) in *.
+    assert (Hhl : hl = 12 \/ hl = 24) by (unfold hl, cf_hl; destruct tscf; [right|left]; reflexivity).
+    assert (Hp0 : proc0 <= 4) by (unfold proc0; destruct udp; lia).
+    exists (U ++ Hd ++ List.concat Ms), pdu'. split; [exact Hrun|].
+    assert (Hsl : N.of_nat (List.length (U ++ Hd ++ List.concat Ms)) = proc0 + hl + T) by (rewrite !app_length; lia).
+    split; [exact Hsl|]. split.
+    { intros rest. rewrite <- !app_assoc. rewrite <- HU. rewrite sub_app_len. apply Hdl. }
+    unfold can_listener. change (N.to_nat MAX_PDU_SIZE) with 1500%nat.
+    set (sent := U ++ Hd ++ List.concat Ms) in *.
+    rewrite (firstn_all2 sent) by lia.
+    set (stale' := skipn (List.length sent) stale).
+    set (pduL := sent ++ stale').
+    assert (HlenL : blen pduL = 1500) by (unfold pduL, stale', blen; rewrite app_length, skipn_length; lia).
+    rewrite Hsl. fold proc0.
+    replace (proc0 + hl + T <? proc0 + 12) with false by (symmetry; apply N.ltb_ge; lia).
+    assert (Hudp : exists x, (if udp then get LD ST spec_Udp "AVTP_UDP_FIELD_ENCAPSULATION_SEQ_NO" pduL 0 else Ok 0) = Ok x).
+    { destruct udp; [|eexists; reflexivity]. rewrite (get_ok E); [eexists; reflexivity|vm_compute; tauto|reflexivity|rewrite HlenL; cbn; lia]. }
+    destruct Hudp as [x Hx]. rewrite Hx. cbn [lbind]. clear Hx x.
+    assert (HsubL : sub pduL proc0 = Hd ++ List.concat Ms ++ stale').
+    { unfold pduL, sent. rewrite <- !app_assoc. rewrite <- HU. apply sub_app_len. }
+    rewrite (get_ok E spec_CommonHeader) by (first [reflexivity | vm_compute; tauto | (rewrite HlenL; cbn [sp_hdr_len spec_CommonHeader]; lia)]). cbn [lbind].
+    rewrite HsubL.
+    assert (Hst' : ref_get spec_CommonHeader "AVTP_COMMON_HEADER_FIELD_SUBTYPE" (Hd ++ List.concat Ms ++ stale') = if tscf then 5 else 0x82).
+    { rewrite <- (Hsub (List.concat Ms ++ stale')). destruct tscf; reflexivity. }
+    rewrite Hst'.
+    assert (HsubM : sub pduL (proc0 + hl + 0) = List.concat Ms ++ stale').
+    { rewrite N.add_0_r, <- sub_sub, HsubL. rewrite <- HHd. apply sub_app_len. }
+    assert (Hfuel : (List.length (map fst frs) < 2048)%nat).
+    { pose proof (total_ge fd _ Hok) as Hg. fold T in Hg. lia. }
+    destruct tscf; cbn [N.eqb Pos.eqb orb negb].
+    - replace hl with 24 in * by reflexivity.
+      replace (proc0 + 24 + T <? proc0 + 24) with false by (symmetry; apply N.ltb_ge; lia).
+      rewrite (get_ok E spec_Tscf) by (first [reflexivity | vm_compute; tauto | (rewrite HlenL; cbn [sp_hdr_len spec_Tscf]; lia)]). cbn [lbind].
+      rewrite HsubL. pose proof (Hdl (List.concat Ms ++ stale')) as Hd1. cbn [cfS cf_len_name] in Hd1. rewrite Hd1.
+      replace (proc0 + 24 + T - (proc0 + 24) <? T) with false by (symmetry; apply N.ltb_ge; lia).
+      rewrite (lloop_run fd pduL (proc0 + 24) T HlenL) with (frs := map fst frs) (Ms := Ms) (rest := stale');
+        [reflexivity|lia|exact HMs|exact Hok|exact Hsff|exact HsubM|lia|reflexivity|exact Hfuel].
+    - replace hl with 12 in * by reflexivity.
+      rewrite (get_ok E spec_Ntscf) by (first [reflexivity | vm_compute; tauto | (rewrite HlenL; cbn [sp_hdr_len spec_Ntscf]; lia)]). cbn [lbind].
+      rewrite HsubL. pose proof (Hdl (List.concat Ms ++ stale')) as Hd1. cbn [cfS cf_len_name] in Hd1. rewrite Hd1.
+      replace (proc0 + 12 + T - (proc0 + 12) <? T) with false by (symmetry; apply N.ltb_ge; lia).
+      rewrite (lloop_run fd pduL (proc0 + 12) T HlenL) with (frs := map fst frs) (Ms := Ms) (rest := stale');
+        [reflexivity|lia|exact HMs|exact Hok|exact Hsff|exact HsubM|lia|reflexivity|exact Hfuel].
+  Qed.
 End Tunnel.
